@@ -73,7 +73,8 @@ ArgLists == ArgLists0 \cup
     [] Fn \in {"setunion", "setintersection", "setsymmetricdifference", "setsubtract"} -> {<<x, y>> : x \in CloseSets, y \in CloseSets}
     [] Fn = "sethaselement" -> {<<s, x>> : s \in CloseSets, x \in {D("1700000000002"), D("1700000000003"), K(TNum, [lm |-> "u64maxp"])}}
     [] OTHER -> {}
-WeakOfArgs(a) == UNION {{[a EXCEPT ![i] = w] : w \in (IF Thorough THEN Weak1(a[i], FALSE) ELSE TakeN(Weak1(a[i], FALSE), 5) \cup TakeN(Weak1(a[i], TRUE), 4))} : i \in 1..Len(a)}
+TW(Ws) == {w \in Ws : TypedUnknowns(w)}
+WeakOfArgs(a) == UNION {{[a EXCEPT ![i] = w] : w \in (IF Thorough THEN TW(Weak1(a[i], FALSE)) ELSE TakeN(TW(Weak1(a[i], FALSE)), 5) \cup TakeN(TW(Weak1(a[i], TRUE)), 4))} : i \in 1..Len(a)}
 \* bases for weakening: argument lists on which the reference says the call succeeds
 OkLists == {a \in ArgLists : LET r == SRef(Fn, a) IN ~Has(r, "undef") /\ r.ok}
 \* (weakening menus order numbers: opaque decimals take part in single calls only)
